@@ -67,9 +67,91 @@ def bounded(tier, seed):
     rnd = [random_structure(rng, rng.randint(14, 60), rng.randint(2, 7), maxlen=4) for _ in range(80 if tier == "quick" else 1500)]
     out.append(run_cases("random", rnd, O.c07_check, lambda p: len(stems_of(p)) >= 2, "random nested/knotted structures N<=60",
                          f"{len(rnd)} structures", sig=repr, relates="elements"))
+    cli = []
+    pool = [p for p in pairings_upto(7) if len(stems_of(p)) >= 2][::9] + rnd[:12 if tier == "quick" else 200]
+    for k, p in enumerate(pool):
+        for fmt in (("bpseq", "dbn") if k % 3 == 0 else ("bpseq",)):
+            for rm_iso in (False, True):
+                for rm_pk in (False, True):
+                    cli.append((tuple(p), fmt, rm_iso, rm_pk))
+    out.append(run_cases("command-line-tool", cli, cli_check, lambda c: c[2] or c[3],
+                         "motif_extractor.main in-process on a BPSEQ / dot-bracket file with every combination of --remove-isolated / --remove-pseudoknots: "
+                         "printed strands are slices of the printed sequence and dot-bracket, printed stems are pairs of it, and it is the structure the options ask for",
+                         f"{len(cli)} runs", sig=repr, relates="elements"))
     return out
 
 
+def cli_check(case):
+    """the command line tool (observe_at: motif_extractor.main): the printed strands are slices of the printed sequence and
+    dot-bracket, the printed stems are pairs of the printed dot-bracket, and what is printed is the decomposition of the
+    structure the options ask for (isolated pairs / pseudoknots removed first)"""
+    import contextlib, io, os, sys, tempfile
+    from rnapolis import motif_extractor
+    from rnapolis.common import DotBracket
+    pairing, fmt, rm_iso, rm_pk = tuple(case[0]), case[1], case[2], case[3]
+    seq = O.seq_of(pairing, None)
+    b = O.make_bpseq(pairing, seq)
+    with tempfile.TemporaryDirectory(prefix="c07-cli-") as d:
+        if fmt == "bpseq":
+            path = os.path.join(d, "in.bpseq")
+            open(path, "w").write("".join(f"{i + 1} {seq[i]} {pairing[i]}\n" for i in range(len(pairing))))
+            argv = ["motif_extractor", "--bpseq", path]
+        else:
+            path = os.path.join(d, "in.dbn")
+            open(path, "w").write(f">strand\n{seq}\n{b.dot_bracket.structure}\n")
+            argv = ["motif_extractor", "--dbn", path]
+        argv += ["--remove-isolated"] * rm_iso + ["--remove-pseudoknots"] * rm_pk
+        buf, old = io.StringIO(), sys.argv
+        try:
+            sys.argv = argv
+            with contextlib.redirect_stdout(buf):
+                motif_extractor.main()
+        finally:
+            sys.argv = old
+    lines = buf.getvalue().splitlines()
+    if len(lines) < 3 or lines[0] != "Full dot-bracket:":
+        return [f"unexpected output head {lines[:3]}"]
+    pseq, pdb = lines[1], lines[2]
+    errs = []
+    if pseq != seq or len(pdb) != len(seq):
+        errs.append(f"printed sequence/structure {pseq!r}/{pdb!r} do not belong to the input sequence {seq!r}")
+        return errs
+    # the structure the options ask for (by the oracle's own removal rules), as a set of pairs
+    want = {(i + 1, j) for i, j in enumerate(pairing) if j > i + 1}
+    if rm_iso:
+        while True:
+            iso = {(i, j) for (i, j) in want if (i - 1, j + 1) not in want and (i + 1, j - 1) not in want}
+            if not iso:
+                break
+            want -= iso
+    try:
+        got = {(i + 1, j + 1) for i, j in DotBracket.from_string(pseq, pdb).pairs}
+    except Exception as e:
+        return [f"printed dot-bracket does not decode: {type(e).__name__}"]
+    if not rm_pk and got != want:
+        errs.append(f"printed dot-bracket decodes to {sorted(got)} instead of {sorted(want)}")
+    if rm_pk and (not got <= want or any(c not in "()." for c in pdb)):
+        errs.append(f"printed dot-bracket {pdb!r} after --remove-pseudoknots is not a round-bracket subset of the structure")
+    for ln in lines[3:]:
+        tok = ln.split(" ")
+        kind, rest = tok[0], tok[1:]
+        if kind not in ("Stem", "SingleStrand", "SingleStrand5p", "SingleStrand3p", "Hairpin", "Loop") or len(rest) % 4:
+            errs.append(f"unexpected element line {ln!r}")
+            continue
+        strands = [(int(rest[k]), int(rest[k + 1]), rest[k + 2], rest[k + 3]) for k in range(0, len(rest), 4)]
+        for first, last, sq, st in strands:
+            if sq != pseq[first - 1:last] or st != pdb[first - 1:last]:
+                errs.append(f"{kind} strand {first}-{last} {sq} {st}: not the slices of the printed sequence / dot-bracket")
+        if kind == "Stem" and len(strands) == 2:
+            (f5, l5, _, _), (f3, l3, _, _) = strands
+            if any((f5 + t, l3 - t) not in got for t in range(l5 - f5 + 1)):
+                errs.append(f"Stem {f5}-{l5}/{f3}-{l3}: not pairs of the printed dot-bracket")
+    return errs[:5]
+
+
 def replay(inp):
+    if inp.get("check") == "command-line-tool":
+        errs = cli_check(inp["case"])
+        return {"fails": bool(errs), "errors": errs[:3]}
     errs = O.c07_check(tuple(inp["case"]))
     return {"fails": bool(errs), "errors": errs[:3]}
